@@ -60,9 +60,10 @@ CASES = [
  ("C19", "basic/random.py", "        if n < 0 or n > N:\n            n = N", "        if not (0 <= n <= N):\n            n = N", "keep"),
  ("C19", "stochastic/_ranker.py", "        if n < 0 or n > N:\n            n = N", "        if not (0 < n <= N):\n            n = N", "break"),
 ]
-import py2lean_np, py2lean_scatter, py2lean_imp, py2lean_holdout, py2lean_arrow, py2lean_cand, py2lean_neg, py2lean_als, py2lean_agg, py2lean_rank
+import py2lean_np, py2lean_scatter, py2lean_imp, py2lean_holdout, py2lean_arrow, py2lean_cand, py2lean_neg, py2lean_als, py2lean_agg, py2lean_rank, py2lean_sim
 # other per-run translators: (generated file, obligations module, generator, its Unsupported)
-OTHER = {"C01ptr": ("RowPtrsC01.lean", "LK.Proofs.RowPtrsC01", py2lean_arrow.translate_rowptrs, py2lean_arrow.Unsupported),
+OTHER = {"C09sim": ("SimC09.lean", "LK.Proofs.SimC09", py2lean_sim.translate, py2lean_sim.Unsupported),
+         "C01ptr": ("RowPtrsC01.lean", "LK.Proofs.RowPtrsC01", py2lean_arrow.translate_rowptrs, py2lean_arrow.Unsupported),
          "C19lin": ("ImpC19.lean", "LK.Proofs.ImpC19", py2lean_imp.translate_linear, py2lean_imp.Unsupported),
          "C06rank": ("RankC06.lean", "LK.Proofs.RankC06", py2lean_rank.generate, py2lean_rank.Unsupported),
          "C07agg": ("AggC07.lean", "LK.Proofs.AggC07", py2lean_agg.generate, py2lean_agg.Unsupported),
@@ -77,6 +78,13 @@ OTHER = {"C01ptr": ("RowPtrsC01.lean", "LK.Proofs.RowPtrsC01", py2lean_arrow.tra
          "C08np": ("NpC08.lean", "LK.Proofs.NpC08", py2lean_np.translate_learn, py2lean_np.Unsupported),
          "C04sc": ("ScatterC04.lean", "LK.Proofs.ScatterC04", py2lean_scatter.generate, py2lean_scatter.Unsupported)}
 CASES += [
+ ("C09sim", "knn/item.py", "    sim[item] = 0\n", "", "break"),
+ ("C09sim", "knn/item.py", "    mask = sim >= min_sim", "    mask = sim > min_sim", "break"),
+ ("C09sim", "knn/item.py", "max_nbrs > 0 and max_nbrs < vals.shape[0]:", "max_nbrs > 0 and max_nbrs > vals.shape[0]:", "break"),
+ ("C09sim", "knn/item.py", "        cols = cols[cis]\n", "", "break"),
+ ("C09sim", "knn/item.py", "        order = torch.argsort(cols)\n        cols = cols[order]\n        vals = vals[order]", "        order = torch.argsort(cols)\n        vals = vals[order]\n        cols = cols[order]", "keep"),
+ ("C09sim", "knn/item.py", "        c, cs, vs = _sim_row(i, matrix, matrix[i], min_sim, max_nbrs)", "        c, cs, vs = _sim_row(i, matrix, matrix[i - 1], min_sim, max_nbrs)", "break"),
+ ("C09sim", "knn/item.py", "    sim = torch.mv(matrix, row.to(torch.float64))", "    sim = torch.mv(matrix, row)", "keep"),
  ("C01ptr", "data/relationships.py", "        row_sizes[np.asarray(rsz_nums) + 1] = rsz_counts", "        row_sizes[np.asarray(rsz_nums)] = rsz_counts", "break"),
  ("C01ptr", "data/relationships.py", "        table = table.sort_by([(c, \"ascending\") for c in e_cols])\n", "", "break"),
  ("C19lin", "stochastic/_ranker.py", "                if r > 0:\n                    scores /= r", "                if r > np.finfo(scores.dtype).eps:\n                    scores /= r", "break"),
@@ -140,6 +148,7 @@ def build(pid):
     mod = OTHER[pid][1] if pid in OTHER else f"LK.Proofs.Guards{pid}"
     r = subprocess.run(["lake", "build", mod], cwd=LEAN, capture_output=True, text=True)
     return r.returncode == 0
+if os.environ.get("LKV_ONLY"): CASES = [c for c in CASES if c[0] in os.environ["LKV_ONLY"].split(",")]          # e.g. LKV_ONLY=C09sim
 bad = 0
 for pid, rel, old, new, want in CASES:
     tmp = tempfile.mkdtemp(prefix="guards_", dir=os.environ.get("LKV_SCRATCH", "/root/scratch") if os.path.isdir(os.environ.get("LKV_SCRATCH", "/root/scratch")) else None)
